@@ -1,4 +1,5 @@
 import FGVerif.Proofs.C13EdgesH
+import FGVerif.Proofs.C13Offset
 /-!
   C13, edge level — "node substitution re-attaches each bond to the right anchor, nothing else moves".
 
@@ -12,6 +13,10 @@ import FGVerif.Proofs.C13EdgesH
   * `C13.replace_wf`  the result is a well-formed networkx graph again (`wf`), so the step iterates.
 
   `incOfCompose` and `specLabelsOf` are defined in `C13EdgesG.lean`.
+
+  The lemma files are about `replaceNodeLen` (`idx_offset = len(graph.nodes)`, the function before the repair);
+  on this domain the repaired model `replaceNode` (`idx_offset = max id + 1`) is the same function
+  (`C13.replaceNode_eq_len_of_dom0`, Proofs/C13Offset.lean), which is how the theorems below are stated for it.
 
   Proof chain (all at the level of `edgeData`, the key dict of a pair of nodes):
   `addEdgeKey` (A) → `Graph.edges` enumerates every key dict once (`E.sel_edges`) → fold with fresh
@@ -27,8 +32,9 @@ open Graph
 theorem replace_labels_of_inc (g : Graph) (x : Int) (sub : Graph) (anchors : List Nat)
     (hd : inDomain g x sub anchors = true) (a b : Int) :
     labelsBetween (replaceNode g x sub anchors) a b
-      = specLabelsOf (incOfCompose g x sub) g x sub anchors a b :=
-  (E.dom_of_inDomain hd).labels a b
+      = specLabelsOf (incOfCompose g x sub) g x sub anchors a b := by
+  rw [replaceNode_eq_len_of_dom0 (E.dom_of_inDomain hd).toDom0]
+  exact (E.dom_of_inDomain hd).labels a b
 
 /-- T3: the incident order after the composition step is the declarative one -/
 theorem compose_incident_order (g : Graph) (x : Int) (sub : Graph)
@@ -50,8 +56,9 @@ theorem replace_labels (g : Graph) (x : Int) (sub : Graph) (anchors : List Nat)
 
 /-- the invariant is preserved (needed to iterate, C14) -/
 theorem replace_wf (g : Graph) (x : Int) (sub : Graph) (anchors : List Nat)
-    (hd : inDomain g x sub anchors = true) : wf (replaceNode g x sub anchors) = true :=
-  E.wf_of_WF (E.dom_of_inDomain hd).w4
+    (hd : inDomain g x sub anchors = true) : wf (replaceNode g x sub anchors) = true := by
+  rw [replaceNode_eq_len_of_dom0 (E.dom_of_inDomain hd).toDom0]
+  exact E.wf_of_WF (E.dom_of_inDomain hd).w4
 
 /-! ### tests (non-vacuity on concrete inputs; these are tests, not part of the proof) -/
 section Tests
